@@ -63,25 +63,26 @@ Print Assumptions C15_hypotheses_satisfiable.
    of async/sync alternations, whichever level (if any) was last resumed by throw() and under
    either event loop: the visible frames are exactly the user's call stack -- through each await_
    bridge down to the caller's own frames -- and every bridging frame is hidden *)
-Theorem C15_greenback_n_inside : forall n j err aio,
-  exists l, gb_extract {| sc_inside := true; sc_n := n; sc_j := j; sc_err := err; sc_aio := aio |} = GOk l
-            /\ visible l = FShimCoro :: FTarget :: ulog n ++ [FA 0; FLeaf] ++ repeat FNested (S j) ++ [FProbe]
+Theorem C15_greenback_n_inside : forall n j err aio awt,
+  exists l, gb_extract {| sc_inside := true; sc_n := n; sc_j := j; sc_err := err; sc_aio := aio; sc_awt := awt |} = GOk l
+            /\ visible l = FShimCoro :: FTarget :: ulog awt n ++ [FA 0; FLeaf] ++ repeat FNested (S j) ++ [FProbe]
             /\ (forall k h, In (k, h) l -> bridging k = true -> h = true).
 Proof. exact greenback_inside. Qed.
 Print Assumptions C15_greenback_n_inside.
 
-(* the same from outside the task (parked in a regular await at level 0) *)
-Theorem C15_greenback_n_outside : forall n err aio,
-  exists l, gb_extract {| sc_inside := false; sc_n := n; sc_j := 0; sc_err := err; sc_aio := aio |} = GOk l
-            /\ visible l = FShimCoro :: FTarget :: ulog n ++ [FA 0; FWait]
+(* the same from outside the task (parked in a regular await at level 0); awt = every await_ is
+   given a non-coroutine awaitable: adapt_awaitable and __await__ are frames on the way *)
+Theorem C15_greenback_n_outside : forall n err aio awt,
+  exists l, gb_extract {| sc_inside := false; sc_n := n; sc_j := 0; sc_err := err; sc_aio := aio; sc_awt := awt |} = GOk l
+            /\ visible l = FShimCoro :: FTarget :: ulog awt n ++ [FA 0; FWait]
             /\ (forall k h, In (k, h) l -> bridging k = true -> h = true).
 Proof. exact greenback_outside. Qed.
 Print Assumptions C15_greenback_n_outside.
 
 Theorem C15_greenback_example :
-  visible (match gb_extract {| sc_inside := true; sc_n := 2; sc_j := 1; sc_err := Some 1; sc_aio := true |}
+  visible (match gb_extract {| sc_inside := true; sc_n := 2; sc_j := 1; sc_err := Some 1; sc_aio := true; sc_awt := true |}
            with GOk l => l | _ => [] end)
-  = [FShimCoro; FTarget; FA 2; FS 2; FA 1; FS 1; FA 0; FLeaf; FNested; FNested; FProbe].
+  = [FShimCoro; FTarget; FA 2; FS 2; FAdapt; FDunder; FA 1; FS 1; FAdapt; FDunder; FA 0; FLeaf; FNested; FNested; FProbe].
 Proof. exact greenback_example. Qed.
 Print Assumptions C15_greenback_example.
 
@@ -90,8 +91,8 @@ Print Assumptions C15_greenback_example.
    frames and hide flags of gb_extract, no leaf, no error -- for every scenario with n <= 6
    alternations, j <= 3 nested greenlets, any throw()-resumed level <= 6, inside and outside, trio
    and asyncio (finite sweep, bound as stated) *)
-Theorem C15_greenback_composes_with_extract_iter : forall inside aio n j err,
+Theorem C15_greenback_composes_with_extract_iter : forall inside aio awt n j err,
   n <= 6 -> j <= 3 -> (forall m, err = Some m -> m <= 6) ->
-  compose_ok {| sc_inside := inside; sc_n := n; sc_j := j; sc_err := err; sc_aio := aio |} = true.
+  compose_ok {| sc_inside := inside; sc_n := n; sc_j := j; sc_err := err; sc_aio := aio; sc_awt := awt |} = true.
 Proof. exact greenback_composes. Qed.
 Print Assumptions C15_greenback_composes_with_extract_iter.
